@@ -11,18 +11,22 @@ from vlib.digest import digest, parameter_mutation
 from menpo.image import Image, MaskedImage, BooleanImage
 from menpo.image.base import ImageBoundaryError
 from menpo.image.patches import extract_patches_by_sampling, extract_patches_with_slice
+from menpo.image.patches import set_patches as set_patches_fn
 from menpo.shape import PointCloud, PointUndirectedGraph
 
 PROPERTY = "C13"
 RULE = (
-    "Hypothesis-drawn images (Image/MaskedImage/BooleanImage; 2-D, 3-D, 4-D for crops; 1..14 pixels per axis; "
-    "uint8/uint16/int32/float32/float64/bool; 1..5 channels; full-range random or position-coded pixel content from a "
+    "Hypothesis-drawn images (Image/MaskedImage/BooleanImage; 2-D..5-D for crops; 1..14 pixels per axis (<= 8 / 4 / 3 in 3-D / 4-D / 5-D); "
+    "every integer width, float32/float64, bool; 1..5 channels; full-range random or position-coded pixel content from a "
     "drawn seed; masks all/random/box/single; landmark groups anywhere in and around the image). Crop requests are drawn "
     "per axis and per side as inside / on the border / outside by 1..5 / wholly outside / degenerate, integer or "
     "fractional (k/8), with constrain_to_boundary on / off / defaulted, through crop, crop_to_pointcloud, "
-    "crop_to_landmarks and crop_to_true_mask. Patch cases draw patch shapes 1..7 x 1..7, 1..4 centres inside, straddling "
-    "and beyond every border, 0..3 offsets, order 0/1/3, four boundary modes, cval, both return forms and both "
-    "extraction paths. Non-trivial: a crop request that crosses a border or is fractional; a patch set that is partly "
+    "crop_to_landmarks (group named, or omitted when it is the only one), crop_to_pointcloud_proportion / "
+    "crop_to_landmarks_proportion (proportion k/8, minimum on / off / defaulted) and crop_to_true_mask. Patch cases draw patch shapes 1..7 x 1..7, 1..4 centres inside, straddling "
+    "and beyond every border, 0..3 offsets, order 0..5, four boundary modes, cval, both return forms and both "
+    "extraction paths. Write-back passes offset and offset_index together, singly or not at all, through the methods, the "
+    "around-landmarks forms and the module function. A last clause pins the bounds helpers (bounds_true / bounds_false / "
+    "constrain_points_to_bounds / constrain_landmarks_to_bounds) against np.nonzero / np.clip. Non-trivial: a crop request that crosses a border or is fractional; a patch set that is partly "
     "outside the image or an image whose channel count is not 3; a write-back with at least two patches, an offset or a non-square patch. "
     "Distinct = distinct canonical-JSON digest of the case."
 )
@@ -32,11 +36,15 @@ ASSUMPTIONS = [
     "wholly-outside requests (empty intersection) with constraining on: accepted outcomes are a refusal (ValueError family) or an empty result; a non-empty result is a failure",
     "patch reference: sample position = centre + offset - patch//2 + k per axis; order 0 takes pixel floor(pos+0.5) (positions are >= 0.05 away from rounding ties), order 1 the explicit bilinear formula",
     "positions whose nearest pixel is inside but which lie outside the pixel-centre extent [0, n-1] (by < 0.5 for order 0, < 1 for order 1) may legitimately give either the pixel or cval in constant mode: order 0 accepts both, order 1 skips them",
-    "outside values are asserted for mode constant (cval) and nearest (edge pixel); for reflect/wrap only in-image samples and the shape are asserted; order 3 only at integer in-image positions (interpolating spline) and shape",
+    "outside values are asserted for mode constant (cval), nearest (edge pixel) and, at order 0 and integer positions only, reflect (index i mod 2n mirrored: d c b a | a b c d); for wrap, and reflect at fractional positions or order >= 1, only in-image samples and the shape are asserted",
+    "orders 2..5 are asserted only at integer in-image positions (an interpolating spline returns the pixel there: float images within 1e-9 (float32 1e-5) of the value scale, integer images exactly after rounding; bool output is not compared) and for shape / dtype; values between pixels are not asserted for order >= 2",
+    "proportional crops: points on a k/8 grid (extra points k/128) and proportions k/8 keep boundary = proportion * range exact in binary; minimum defaults to True",
+    "group=None is only used when the image carries exactly one landmark group (the documented condition)",
+    "bounds_true is not called on an all-false mask nor bounds_false on an all-true one (empty extent: behaviour not stated); the deprecated constrain_landmarks_to_bounds is held to its docstring (pc.constrain_to_bounds(image.bounds()), i.e. clip to [0, shape-1]) while constrain_points_to_bounds clips to [0, shape] (exclusive crop end)",
     "cval is drawn representable in the image dtype (integer for integer images, 0/1 for bool): the two paths cast unrepresentable fill values differently and the property does not cover that",
     "order-1 results on integer images are compared within 0.5 (+1e-6) of the real-valued bilinear reference (scipy rounds to the output dtype)",
     "write-back uses interior, pairwise non-overlapping patch grids by construction; offsets for set_patches are integer",
-    "sample_offsets are passed as ndarray (documented type); lists are not exercised",
+    "sample_offsets are passed as ndarray (documented type); a list / tuple is refused by both paths alike (AttributeError on .shape) and is not exercised",
 ]
 
 INT_DTYPES = ("uint8", "uint16", "int32", "int8", "int16", "uint32")
@@ -47,6 +55,9 @@ ALL_DTYPES = INT_DTYPES + FLOAT_DTYPES + ("bool",)
 WIDE_INT_DTYPES = ("int64", "uint64")
 CROP_DTYPES = ALL_DTYPES + WIDE_INT_DTYPES
 LM_NAMES = ["g", "PTS", "left eye", "ü"]
+PROP_VIAS = ("pointcloud_prop", "landmarks_prop")
+LM_VIAS = ("landmarks", "landmarks_prop")
+PC_VIAS = ("pointcloud", "landmarks") + PROP_VIAS
 
 
 # =============================================================================================
@@ -59,7 +70,7 @@ def s_image(draw, ndims=(2,), smin=1, smax=14, classes=("Image", "MaskedImage", 
     # BooleanImage is one class out of three but has a single dtype / channel count: weight it down
     cls = draw(st.sampled_from([k for k in classes for _ in range(1 if k == "BooleanImage" else 2)]))
     ndim = draw(st.sampled_from(list(ndims)))
-    hi = smax if ndim == 2 else (8 if ndim == 3 else 4)
+    hi = {2: smax, 3: 8, 4: 4}.get(ndim, 3)
     shape = draw(st.lists(st.integers(smin, hi), min_size=ndim, max_size=ndim))
     c = {"cls": cls, "shape": shape, "seed": draw(st.integers(0, 2**16))}
     if cls == "BooleanImage":
@@ -247,7 +258,7 @@ def s_axis_bounds(draw, s, kinds):
 def s_crop(draw, vias):
     via = draw(st.sampled_from(vias))
     classes = ("MaskedImage",) if via == "true_mask" else ("Image", "MaskedImage", "BooleanImage")
-    ndims = draw(st.sampled_from([(2,), (2,), (2,), (3,), (3,), (4,), (2, 3, 4)]))
+    ndims = draw(st.sampled_from([(2,), (2,), (2,), (3,), (3,), (4,), (5,), (2, 3, 4, 5)]))
     img = draw(s_image(ndims=ndims, classes=classes, special=True, dtypes=CROP_DTYPES))
     case = {"img": img, "via": via}
     case["constrain"] = draw(st.sampled_from([True, True, False, False, None]))
@@ -263,7 +274,16 @@ def s_crop(draw, vias):
     if via == "crop":
         case["form"] = draw(st.sampled_from(["ndarray", "ndarray", "list", "tuple", "int_ndarray"]))
     else:
-        case["boundary"] = draw(st.sampled_from([0, 0, 1, 2, 3]))
+        if via in PROP_VIAS:
+            # boundary = proportion * (smallest | largest) per-axis range of the points; k/8 keeps the product exact
+            case["prop"] = draw(st.sampled_from([0.0, 0.125, 0.25, 0.5, 0.5, 1.0, 1.5]))
+            case["minimum"] = draw(st.sampled_from([True, False, None]))
+        else:
+            case["boundary"] = draw(st.sampled_from([0, 0, 1, 2, 3]))
+        if via in LM_VIAS and draw(st.booleans()):
+            # the crop group is the only group on the image: the group argument is left out
+            img["lms"] = []
+            case["omit_group"] = True
         k = draw(st.integers(0, 3))
         case["extra"] = [[draw(st.integers(0, 15)) / 16.0 for _ in img["shape"]] for _ in range(k)]
         case["swap"] = draw(st.lists(st.booleans(), min_size=len(img["shape"]), max_size=len(img["shape"])))
@@ -297,9 +317,15 @@ def c_crop(case, ctx):
     if via == "crop":
         rmin = [float(x) for x in case["min"]]
         rmax = [float(x) for x in case["max"]]
-    elif via in ("pointcloud", "landmarks"):
+    elif via in PC_VIAS:
         pts = _pc_points(case)
-        b = case["boundary"]
+        if via in PROP_VIAS:
+            spread = pts.max(axis=0) - pts.min(axis=0)
+            # minimum defaults to True: proportion of the smallest per-axis range
+            b = case["prop"] * float(spread.max() if case["minimum"] is False else spread.min())
+            ctx.event("proportion minimum=%s boundary%s0" % (case["minimum"], ">" if b > 0 else "="))
+        else:
+            b = case["boundary"]
         rmin = [float(pts[:, a].min() - b) for a in range(nd)]
         rmax = [float(pts[:, a].max() + b) for a in range(nd)]
     else:
@@ -359,10 +385,23 @@ def c_crop(case, ctx):
             out = im.crop(a0, a1, **kw)
         elif via == "pointcloud":
             out = im.crop_to_pointcloud(PointCloud(pts.copy()), boundary=b, **kw)
-        elif via == "landmarks":
+        elif via == "pointcloud_prop":
+            if case["minimum"] is not None:
+                kw["minimum"] = case["minimum"]
+            out = im.crop_to_pointcloud_proportion(PointCloud(pts.copy()), case["prop"], **kw)
+        elif via in LM_VIAS:
             im.landmarks["__crop"] = PointCloud(pts.copy())
             before = digest(im)
-            out = im.crop_to_landmarks(group="__crop", boundary=b, **kw)
+            if not (case.get("omit_group") and not c.get("lms")):
+                kw["group"] = "__crop"
+            else:
+                ctx.event("group omitted")
+            if via == "landmarks":
+                out = im.crop_to_landmarks(boundary=b, **kw)
+            else:
+                if case["minimum"] is not None:
+                    kw["minimum"] = case["minimum"]
+                out = im.crop_to_landmarks_proportion(case["prop"], **kw)
         else:
             out = im.crop_to_true_mask(boundary=b, **kw)
     except ImageBoundaryError as e:
@@ -439,7 +478,7 @@ def c_crop(case, ctx):
     # landmarks: every group, shifted by the (clipped) floored minimum
     shift = np.array(bmin, dtype=float)
     groups = list(c.get("lms", []))
-    if via == "landmarks":
+    if via in LM_VIAS:
         groups = groups + [["__crop", "PointCloud", pts.tolist()]]
     got_names = sorted(out.landmarks.keys()) if out.has_landmarks else []
     ctx.expect(got_names == sorted(g[0] for g in groups), "crop.landmark_groups", lambda: "%r vs %r" % (got_names, [g[0] for g in groups]))
@@ -459,6 +498,11 @@ def c_crop(case, ctx):
 
 # =============================================================================================
 # patch reference (plain loops)
+
+
+def _reflect(i, n):
+    m = i % (2 * n)
+    return m if m < n else 2 * n - 1 - m
 
 
 def ref_patches(px, centres, pshape, offsets, order, mode, cval, ambiguous_ok):
@@ -501,6 +545,10 @@ def ref_patches(px, centres, pshape, offsets, order, mode, cval, ambiguous_ok):
                         elif mode == "nearest":
                             want[a, o, :, i, j] = pf[:, min(max(ir, 0), H - 1), min(max(ic, 0), W - 1)]
                             known[a, o, :, i, j] = True
+                        elif mode == "reflect" and r == ir and cc == ic:
+                            # integer positions only: the image mirrored about its outer pixel edges (d c b a | a b c d)
+                            want[a, o, :, i, j] = pf[:, _reflect(ir, H), _reflect(ic, W)]
+                            known[a, o, :, i, j] = True
                     elif order == 1:
                         rr, c2 = r, cc
                         if not pos_in:
@@ -524,7 +572,9 @@ def ref_patches(px, centres, pshape, offsets, order, mode, cval, ambiguous_ok):
                             + fr * fc * pf[:, i1, j1]
                         )
                         known[a, o, :, i, j] = True
-                    elif pf.dtype == px.dtype or px.dtype == np.float32:
+                    elif px.dtype.kind in "fiu":
+                        # order >= 2: the spline interpolates, so an integer in-image position returns that pixel
+                        # (bool output truncates 0.999.. to False and is left out)
                         if pos_in and r == math.floor(r) and cc == math.floor(cc):
                             want[a, o, :, i, j] = pf[:, int(r), int(cc)]
                             known[a, o, :, i, j] = True
@@ -582,20 +632,26 @@ def s_patches_ref(draw):
     img = draw(s_image(ndims=(2,), lms=False))
     H, W = img["shape"]
     ph, pw = draw(st.integers(1, 7)), draw(st.integers(1, 7))
-    centres, fr = draw(s_centres(H, W, ph, pw))
-    offsets = draw(s_offsets(frac_ok=fr is None))
     via = draw(st.sampled_from(["method", "method", "method", "landmarks", "sampling_fn", "slice_fn"]))
-    case = {"img": img, "pshape": [ph, pw], "centres": centres, "offsets": offsets, "via": via,
-            "single": draw(st.booleans()), "pshape_form": draw(st.sampled_from(["tuple", "list", "ndarray"])),
-            "int_offsets": draw(st.booleans())}
+    case = {"img": img, "pshape": [ph, pw], "via": via}
     if via == "landmarks":
         case["order"], case["mode"], case["cval"] = 0, "constant", 0.0
+        case["omit_group"] = draw(st.booleans())  # the centres are the only group on the image
     elif via == "slice_fn":
         case["order"], case["mode"], case["cval"] = 0, "constant", draw(s_cval(img["dtype"]))
     else:
-        case["order"] = draw(st.sampled_from([0, 0, 1, 1, 3]))
+        case["order"] = draw(st.sampled_from([0, 0, 0, 1, 1, 2, 3, 4, 5]))
         case["mode"] = draw(st.sampled_from(["constant", "constant", "nearest", "reflect", "wrap"]))
         case["cval"] = draw(s_cval(img["dtype"]))
+    # what can be asserted of a spline (order >= 2) and of reflected samples needs integer positions: favour them there
+    favour_int = case["order"] >= 2 or (case["mode"] == "reflect" and case["order"] == 0)
+    integer = favour_int and draw(st.sampled_from([True, True, False]))
+    centres, fr = draw(s_centres(H, W, ph, pw, integer=integer))
+    case["centres"] = centres
+    case["offsets"] = draw(s_offsets(frac_ok=fr is None and not integer))
+    case["single"] = draw(st.booleans())
+    case["pshape_form"] = draw(st.sampled_from(["tuple", "list", "ndarray"]))
+    case["int_offsets"] = draw(st.booleans())
     return case
 
 
@@ -681,6 +737,10 @@ def c_patches_ref(case, ctx):
     ctx.event("n_offsets=%d" % (0 if offsets is None else no))
     frac = any(v != math.floor(v) for p in centres for v in p) or (offsets is not None and any(v != math.floor(v) for p in offsets for v in p))
     ctx.event("fractional" if frac else "integer")
+    if order >= 2:
+        ctx.event("order>=2 pixels asserted: %s" % ("some" if known.any() else "none"))
+    if order == 0 and mode == "reflect":
+        ctx.event("reflect outside samples asserted: %s" % ("some" if (n_out and not frac) else "none"))
     ctx.nontrivial(loc == "partial" or c["ch"] != 3)
     info = "cls=%s shape=%r ch=%d dtype=%s patch=%r centres=%r offsets=%r order=%d mode=%s cval=%r via=%s" % (
         c["cls"], c["shape"], c["ch"], c["dtype"], case["pshape"], centres, offsets, order, mode, cval, via)
@@ -695,7 +755,11 @@ def c_patches_ref(case, ctx):
     elif via == "landmarks":
         im.landmarks["pc"] = pc
         before = digest(im)
-        res = im.extract_patches_around_landmarks("pc", patch_shape=ps, sample_offsets=oarg, as_single_array=case["single"])
+        if case.get("omit_group"):
+            ctx.event("group omitted")
+            res = im.extract_patches_around_landmarks(patch_shape=ps, sample_offsets=oarg, as_single_array=case["single"])
+        else:
+            res = im.extract_patches_around_landmarks("pc", patch_shape=ps, sample_offsets=oarg, as_single_array=case["single"])
     elif via == "sampling_fn":
         res = extract_patches_by_sampling(im.pixels, pc.points, ps, offsets=oarg, order=order, mode=mode, cval=cval)
     else:
@@ -781,10 +845,16 @@ def s_writeback(draw):
     oi = draw(st.integers(0, n_off - 1))
     offs = [[draw(st.integers(-pad[0], pad[1])), draw(st.integers(-pad[2], pad[3]))] for _ in range(n_off)]
     use_offsets = draw(st.sampled_from([True, True, False]))
-    return {"img": img, "pshape": [ph, pw], "grid": [ny, nx], "pad": pad, "gap": gap, "cells": cells, "frac": frac,
+    case = {"img": img, "pshape": [ph, pw], "grid": [ny, nx], "pad": pad, "gap": gap, "cells": cells, "frac": frac,
             "offsets": offs if use_offsets else None, "oi": oi if use_offsets else None,
             "offset_form": draw(st.sampled_from(["tuple", "list", "ndarray"])),
-            "via": draw(st.sampled_from(["method", "method", "landmarks"])), "gseed": draw(st.integers(0, 2**16))}
+            "via": draw(st.sampled_from(["method", "method", "landmarks", "landmarks", "fn"])), "gseed": draw(st.integers(0, 2**16))}
+    # which of offset / offset_index are passed: a missing offset means (0, 0), a missing index means patches[:, 0]
+    case["kwform"] = draw(st.sampled_from(["both", "both", "offset_only", "index_only"])) if use_offsets else "none"
+    if case["via"] == "landmarks" and draw(st.booleans()):
+        img["lms"] = []  # the centres are the only group: the group argument is left out
+        case["omit_group"] = True
+    return case
 
 
 def c_writeback(case, ctx):
@@ -811,37 +881,56 @@ def c_writeback(case, ctx):
         # with the bump the offset range shrinks on the far side
         offsets = [[min(o[0], pad[1] - bump[0]), min(o[1], pad[3] - bump[1])] for o in offsets]
     no = 1 if offsets is None else len(offsets)
-    off = [0, 0] if offsets is None else offsets[oi]
+    kwform = case.get("kwform", "none" if offsets is None else "both")
+    # off: the shift applied to every centre; gi: which entry of the patches' offset axis is written
+    off = [int(v) for v in offsets[oi]] if kwform in ("both", "offset_only") else [0, 0]
+    gi = oi if kwform in ("both", "index_only") else 0
     sfx = "" if frac is None else ".fractional_centres"
     ctx.event("cls=%s dtype=%s" % (c["cls"], c["dtype"]))
     ctx.event("ch=%d" % c["ch"])
     ctx.event("n=%d n_off=%d" % (n, 0 if offsets is None else no))
     ctx.event("centres=%s" % ("integer" if frac is None else "fractional"))
     ctx.event("via=%s" % case["via"])
+    ctx.event("offset/index passed: %s" % kwform)
     ctx.nontrivial(n >= 2 or offsets is not None or ph != pw)
-    info = "cls=%s shape=%r ch=%d dtype=%s patch=%r centres=%r offsets=%r index=%r" % (
-        c["cls"], c["shape"], c["ch"], c["dtype"], case["pshape"], centres, offsets, oi)
+    info = "cls=%s shape=%r ch=%d dtype=%s patch=%r centres=%r offsets=%r index=%r passed=%s via=%s" % (
+        c["cls"], c["shape"], c["ch"], c["dtype"], case["pshape"], centres, offsets, oi, kwform, case["via"])
 
     pc = PointCloud(np.array(centres, dtype=float))
     use_lm = case["via"] == "landmarks"
+    use_fn = case["via"] == "fn"
     if use_lm:
         im.landmarks["pc"] = pc
     before = digest(im)
-    oarg = None if offsets is None else np.array(offsets, dtype=int)
-    kw = {}
+    oarg = None
     if offsets is not None:
+        # the offsets the patches are extracted at: entry gi is the shift they are written back with
+        ex = [list(o) for o in offsets]
+        ex[gi] = off
+        oarg = np.array(ex, dtype=int)
+    kw = {}
+    if kwform in ("both", "offset_only"):
         o = [int(off[0]), int(off[1])]
         kw["offset"] = tuple(o) if case["offset_form"] == "tuple" else (o if case["offset_form"] == "list" else np.array([o]))
+    if kwform in ("both", "index_only"):
         kw["offset_index"] = oi
+    gkw = {} if (case.get("omit_group") and not c.get("lms")) else {"group": "pc"}
+    if use_lm and not gkw:
+        ctx.event("group omitted")
 
     def extract(img_, as_single=True):
         if use_lm:
-            return img_.extract_patches_around_landmarks("pc", patch_shape=(ph, pw), sample_offsets=oarg, as_single_array=as_single)
+            return img_.extract_patches_around_landmarks(patch_shape=(ph, pw), sample_offsets=oarg, as_single_array=as_single, **gkw)
         return img_.extract_patches(pc, patch_shape=(ph, pw), sample_offsets=oarg, as_single_array=as_single)
 
     def put(img_, patches):
         if use_lm:
-            return img_.set_patches_around_landmarks(patches, group="pc", **kw)
+            return img_.set_patches_around_landmarks(patches, **dict(kw, **gkw))
+        if use_fn:
+            # the module function writes into the pixel array it is handed
+            res = img_.copy()
+            set_patches_fn(patches, res.pixels, pc.points, np.array([off], dtype=np.intp), gi)
+            return res
         return img_.set_patches(patches, pc, **kw)
 
     # generated patch content and two loop references of where it must land: by the nearest-pixel convention that
@@ -863,7 +952,7 @@ def c_writeback(case, ctx):
             for ch in range(c["ch"]):
                 for i in range(ph):
                     for j in range(pw):
-                        w[ch, r0 + i, c0 + j] = G[a, (oi or 0), ch, i, j]
+                        w[ch, r0 + i, c0 + j] = G[a, gi, ch, i, j]
         return w
 
     want = place(tops)
@@ -912,13 +1001,15 @@ def c_writeback(case, ctx):
 
     # (b) extracting at the same centres + that offset returns the written content
     if use_lm:
-        R = wrote.extract_patches_around_landmarks("pc", patch_shape=(ph, pw), sample_offsets=None if offsets is None else np.array([off]))
+        R = wrote.extract_patches_around_landmarks(patch_shape=(ph, pw), sample_offsets=None if offsets is None else np.array([off]), **gkw)
     else:
         R = wrote.extract_patches(pc, patch_shape=(ph, pw), sample_offsets=None if offsets is None else np.array([off]))
-    wantR = G[:, (oi or 0)][:, None]
+    wantR = G[:, gi][:, None]
     ctx.expect(eq_exact(R, wantR), "writeback.write_then_extract" + sfx, lambda: "%s: %s" % (info, short(R, wantR)))
 
-    # (c) list-of-Image form agrees with the ndarray form
+    # (c) list-of-Image form agrees with the ndarray form (methods only: the module function takes the array)
+    if use_fn:
+        return
     L = [Image(G[a, o].copy()) for a in range(n) for o in range(no)]
     wrote_l = put(im, L)
     ctx.expect(eq_exact(wrote_l.pixels, wrote.pixels), "writeback.list_vs_array_form", lambda: "%s: %s" % (info, short(wrote_l.pixels, wrote.pixels)))
@@ -927,16 +1018,125 @@ def c_writeback(case, ctx):
     ctx.expect(eq_exact(back_l.pixels, px), "writeback.restore_list_form" + sfx, lambda: "%s: %s" % (info, short(back_l.pixels, px)))
     ctx.expect(parameter_mutation(before, digest(im)) is None, "writeback.receiver_mutated", info)
 
+# =============================================================================================
+# clause 6: the bounds helpers the crops are built on
+
+
+@st.composite
+def s_bounds(draw):
+    img = draw(s_image(ndims=(2, 2, 3, 4), classes=("Image", "MaskedImage"), dtypes=("uint8", "float64")))
+    shape = img["shape"]
+    # the boolean mask whose true / false extent is asked for (independent of the image class)
+    img["mask"] = draw(st.sampled_from(["random", "box", "box", "single", "all"]))
+    if img["mask"] == "box":
+        box = []
+        for s in shape:
+            a = draw(st.integers(0, s - 1))
+            box.append([a, draw(st.integers(a + 1, s))])
+        img["mbox"] = box
+    else:
+        img.pop("mbox", None)
+    k = draw(st.integers(1, 3))
+    pts = [[draw(st.integers(-3 * 8, (s + 3) * 8)) / 8.0 for s in shape] for _ in range(k)]
+    if draw(st.booleans()):
+        pts = [[float(math.floor(v)) for v in p] for p in pts]
+    return {"img": img, "holder": draw(st.sampled_from(["boolean", "masked"])), "invert": draw(st.booleans()),
+            "boundary": draw(st.sampled_from([None, 0, 1, 2, 2, 3, 3, 5, 5, -1, -2])),
+            "constrain": draw(st.sampled_from([True, True, False, None])),
+            "points": pts, "int_points": draw(st.booleans())}
+
+
+def c_bounds(case, ctx):
+    c = case["img"]
+    px, _, im = build(c)
+    shape = np.array(c["shape"])
+    nd = len(shape)
+    m = build_mask(c)
+    if case["invert"] and not m.all():
+        m = ~m
+    holder = BooleanImage(m.copy()) if case["holder"] == "boolean" else MaskedImage(np.zeros((1,) + m.shape), mask=m.copy()).mask
+    b, constrain = case["boundary"], case["constrain"]
+    kw = {}
+    if b is not None:
+        kw["boundary"] = b
+    if constrain is not None:
+        kw["constrain_to_bounds"] = constrain
+    b_eff = 0 if b is None else b
+    clip = constrain is not False
+    ctx.event("nd=%d holder=%s mask=%s%s" % (nd, case["holder"], c["mask"], " inverted" if case["invert"] else ""))
+    ctx.event("boundary=%r constrain=%r" % (b, constrain))
+    info = "shape=%r mask=%s boundary=%r constrain_to_bounds=%r" % (c["shape"], c["mask"], b, constrain)
+    before = digest(holder)
+    clipped_any = False
+    crosses = False
+    for name, sel in (("bounds_true", m), ("bounds_false", ~m)):
+        if not sel.any():
+            ctx.event("%s: no such pixel (not called)" % name)
+            continue
+        idx = np.nonzero(sel)
+        lo = np.array([int(i.min()) - b_eff for i in idx])
+        hi = np.array([int(i.max()) + b_eff for i in idx])
+        lo_c, hi_c = np.clip(lo, 0, shape), np.clip(hi, 0, shape)
+        crosses = crosses or not (np.array_equal(lo, lo_c) and np.array_equal(hi, hi_c))
+        if clip:
+            lo, hi = lo_c, hi_c
+        got = getattr(holder, name)(**kw)
+        if not ctx.expect(isinstance(got, tuple) and len(got) == 2, name + ".return_form", type(got).__name__):
+            continue
+        g0, g1 = np.asarray(got[0]), np.asarray(got[1])
+        ctx.expect(g0.shape == (nd,) and g1.shape == (nd,) and np.array_equal(g0, lo) and np.array_equal(g1, hi),
+                   name + ".values", lambda: "%s: got %r..%r want %r..%r" % (info, g0.tolist(), g1.tolist(), lo.tolist(), hi.tolist()))
+    ctx.expect(parameter_mutation(before, digest(holder)) is None, "bounds.mask_mutated", info)
+
+    # constrain_points_to_bounds: clipped to [0, shape] per axis, the argument left alone
+    before = digest(im)
+    for target in (im, holder):
+        for p in case["points"]:
+            arr = np.array(p, dtype=float)
+            if case["int_points"] and np.array_equal(arr, np.floor(arr)):
+                arr = arr.astype(int)
+            keep = arr.copy()
+            want = np.clip(arr, 0, shape)
+            clipped_any = clipped_any or not np.array_equal(want, arr)
+            got = target.constrain_points_to_bounds(arr)
+            ctx.expect(np.array_equal(arr, keep), "constrain_points.argument_mutated", lambda: "shape=%r points=%r" % (c["shape"], p))
+            ctx.expect(isinstance(got, np.ndarray) and got.shape == want.shape and np.array_equal(got, want), "constrain_points.values",
+                       lambda: "shape=%r points=%r: got %r want %r" % (c["shape"], p, np.asarray(got).tolist(), want.tolist()))
+    ctx.expect(parameter_mutation(before, digest(im)) is None, "constrain_points.image_mutated", info)
+
+    # constrain_landmarks_to_bounds (deprecated, documented as pc.constrain_to_bounds(image.bounds())): every group
+    # is moved onto the valid pixel indices [0, shape - 1]; nothing else on the image changes
+    groups = c.get("lms", [])
+    if groups:
+        ctx.event("landmark groups=%d" % len(groups))
+        im.constrain_landmarks_to_bounds()
+        ctx.expect(sorted(im.landmarks.keys()) == sorted(g[0] for g in groups), "constrain_landmarks.groups", info)
+        for nm, kind, p in groups:
+            if nm not in im.landmarks.keys():
+                continue
+            src = np.array(p, dtype=float)
+            want = np.clip(src, 0, shape - 1)
+            clipped_any = clipped_any or not np.array_equal(want, src)
+            gotp = im.landmarks[nm].points
+            ctx.expect(gotp.shape == want.shape and np.array_equal(gotp, want), "constrain_landmarks.values",
+                       lambda: "shape=%r group %r: %s" % (c["shape"], nm, short(gotp, want)))
+        ctx.expect(eq_exact(im.pixels, px if c["cls"] != "BooleanImage" else px[:1]), "constrain_landmarks.pixels_changed", info)
+    ctx.event("points/landmarks: %s" % ("clipping needed" if clipped_any else "nothing clipped"))
+    ctx.event("true/false extent + boundary %s" % ("leaves the image" if crosses else "stays inside"))
+    ctx.nontrivial(crosses)
+
 
 CLAUSES = [
     Clause("crop", c_crop, lambda: s_crop(["crop"]), quick=2600, thorough=70000, nt_floor=0.4,
-           rule="Image.crop on 2-D/3-D/4-D images of every class and dtype; per axis and side inside / border / outside by 1..5 / wholly outside / degenerate, integer or k/8 fractional; constrain on/off/default; three-way reference (block, ImageBoundaryError, ValueError); non-trivial: crosses a border or fractional"),
-    Clause("crop_to", c_crop, lambda: s_crop(["pointcloud", "landmarks", "true_mask"]), quick=1600, thorough=40000, nt_floor=0.4,
-           rule="the same reference through crop_to_pointcloud / crop_to_landmarks / crop_to_true_mask with boundary 0..3"),
+           rule="Image.crop on 2-D..5-D images of every class and dtype; per axis and side inside / border / outside by 1..5 / wholly outside / degenerate, integer or k/8 fractional; constrain on/off/default; three-way reference (block, ImageBoundaryError, ValueError); non-trivial: crosses a border or fractional"),
+    Clause("crop_to", c_crop, lambda: s_crop(["pointcloud", "landmarks", "true_mask", "pointcloud_prop", "landmarks_prop"]), quick=2200, thorough=40000, nt_floor=0.4,
+           rule="the same reference through crop_to_pointcloud / crop_to_landmarks / crop_to_true_mask with boundary 0..3 and through crop_to_pointcloud_proportion / crop_to_landmarks_proportion (boundary = proportion k/8 x smallest or largest per-axis range of the points, minimum on / off / defaulted); the landmark forms with the group named or, when it is the only group, omitted"),
     Clause("patches_ref", c_patches_ref, s_patches_ref, quick=2200, thorough=50000, nt_floor=0.4,
-           rule="patch extraction (method, around landmarks, both module functions) against a Python-loop reference: order 0 nearest, order 1 bilinear, cval / edge outside; non-trivial: partly outside or channels != 3"),
+           rule="patch extraction (method, around landmarks with the group named or defaulted, both module functions) against a Python-loop reference: order 0 nearest, order 1 bilinear, orders 2..5 the pixel itself at integer in-image positions, cval / edge / (order 0, integer positions) mirrored pixel outside; non-trivial: partly outside or channels != 3"),
     Clause("paths", c_paths, s_paths, quick=1300, thorough=30000, nt_floor=0.4,
            rule="integer centres and offsets: slicing path == sampling path (order 0, constant) == loop reference, element-wise, including patches partly or wholly outside"),
     Clause("writeback", c_writeback, s_writeback, quick=1300, thorough=30000, nt_floor=0.4,
-           rule="interior non-overlapping patch grids: extract->set restores, set generated content == loop reference, set->extract returns it, list and array forms agree, receiver untouched; non-trivial: >= 2 patches, an offset or a non-square patch"),
+           rule="interior non-overlapping patch grids: extract->set restores, set generated content == loop reference, set->extract returns it, list and array forms agree, receiver untouched; offset / offset_index passed both, singly (missing offset = (0, 0), missing index = patches[:, 0]) or not at all; methods, around-landmarks (group given or defaulted) and the module function; non-trivial: >= 2 patches, an offset or a non-square patch"),
+    Clause("bounds", c_bounds, s_bounds, quick=900, thorough=20000, nt_floor=0.3,
+           rule="the helpers the crops are built on, against np.nonzero / np.clip: BooleanImage.bounds_true / bounds_false (2-D..4-D masks, boundary -2..5 or defaulted, constrain_to_bounds on / off / defaulted, standalone and as MaskedImage.mask), Image.constrain_points_to_bounds (clip to [0, shape], argument untouched), constrain_landmarks_to_bounds (clip to [0, shape-1]); non-trivial: the true / false extent plus boundary leaves the image (so clipping, or not clipping, is observable)"),
 ]
